@@ -137,6 +137,8 @@ def ensure_makefile():
 def coq_make(targets, jobs=16, timeout=3000):
     """Full .vo build (no -vos) of the given targets (paths relative to coq/)."""
     ensure_makefile()
+    if not targets:
+        return 0, "(no targets)"
     tg = " ".join(targets)
     rc, out = sh("timeout %d make -k -j%d %s" % (timeout, jobs, tg), cwd=COQ, timeout=timeout + 30)
     return rc, out
@@ -225,6 +227,9 @@ def build_runner(name):
         with open(os.path.join(d, "Extract.v")) as f:
             et = f.read()
         mods = re.findall(r"Cspuz\.([A-Za-z0-9_.]+)", et)
+        for m_ in re.finditer(r"From\s+Cspuz\s+Require\s+(?:Import|Export)?\s+([A-Za-z0-9_. \t]+?)\.\s*\n", et + "\n"):
+            mods += m_.group(1).split()
+        mods = [m.rstrip(".") for m in mods]
         vos, srcs = [], [os.path.join(d, "Extract.v"), os.path.join(d, "driver.ml"), os.path.join(EXTRACT, "zutil.ml")]
         use_exprio = "Exprio." in open(os.path.join(d, "driver.ml")).read()
         extra_ml = ""
